@@ -152,6 +152,11 @@ func connCases(o hx.Opts, emit func(string)) {
 	honest := func(pre string, dst int) string {
 		return fmt.Sprintf("%s/d%d/s%d/e053.e013/e053.e013/ok", pre, dst, dst)
 	}
+	// evicting(k): a fault-free connection during which k unrelated sessions are Put into the
+	// client's cache (after the ClientHello left): a session in use by a handshake is evicted
+	evicting := func(dst, k int) string {
+		return fmt.Sprintf("-/d%d/s%d/e053.e013/e053.e013/e%d", dst, dst, k)
+	}
 	stacks := []string{"tlcp", "dtlcp"}
 	// witnesses first: F5 (capacity 1; capacity 2 with one unrelated Put in between)
 	for _, st := range stacks {
@@ -160,6 +165,9 @@ func connCases(o hx.Opts, emit func(string)) {
 		}
 		emit(fmt.Sprintf("stack=%s cap=2 hist=%s", st, strings.Join([]string{honest("-", 0), honest("j1", 0), honest("-", 0)}, ",")))
 		emit(fmt.Sprintf("stack=%s cap=3 hist=%s", st, strings.Join([]string{honest("-", 0), honest("-", 1), honest("-", 0), honest("-", 1)}, ",")))
+		// F40: the cached session is evicted (and wiped) while the handshake that loaded it is in flight
+		emit(fmt.Sprintf("stack=%s cap=2 hist=%s", st, strings.Join([]string{honest("-", 0), evicting(0, 2), honest("-", 0)}, ",")))
+		emit(fmt.Sprintf("stack=%s cap=4 hist=%s", st, strings.Join([]string{honest("-", 0), evicting(0, 4), honest("-", 0)}, ",")))
 	}
 	r := hx.NewRand(o.Seed + 77)
 	n := 1500 * o.Scale
@@ -189,6 +197,9 @@ func connCases(o hx.Opts, emit func(string)) {
 				pre = fmt.Sprintf("st%d", r.Intn(2))
 			}
 			cs[j] = honest(pre, r.Intn(2))
+			if pre == "-" && r.Chance(15) {
+				cs[j] = evicting(r.Intn(2), 1+r.Intn(cp+1))
+			}
 		}
 		emit(fmt.Sprintf("stack=%s cap=%d hist=%s", st, cp, strings.Join(cs, ",")))
 	}
@@ -281,12 +292,22 @@ func main() {
 	o := hx.ParseOpts()
 	tr := hx.NewTrace(o.Out)
 	defer tr.Close()
-	emit := func(desc string) { tr.Line(desc, execute(desc)) }
+	emit := func(desc string) {
+		if _, isConc := hx.KV(desc, "conc"); isConc {
+			tr.Line(desc, executeConc(desc))
+			return
+		}
+		tr.Line(desc, execute(desc))
+	}
 
 	if o.Replay != "" {
 		for _, c := range hx.ReplayCases(o.Replay) {
 			emit(c)
 		}
+		return
+	}
+	if o.Phase == "conc" {
+		concCases(o, tr.Line)
 		return
 	}
 	if o.Phase == "conn" {
